@@ -36,3 +36,33 @@ Definition model_ok (fh : option heap) (p : probe) : bool :=
   match fh with Some h' => model_probe h' p | None => false end.
 
 Definition dummy_graph : graph := {| g_heap := []; g_globals := [] |}.
+
+(* The nested-module scenario of the harness (a module finishes while the
+   function that owns a captured variable is still running):
+     0: f, free variable cell 1    1: cell x -> 2    2: first value    3: value assigned later
+   B's epilogue freezes from f; then (rebind) the owner assigns x := 3; then (keep)
+   the owner's module A, which also binds f to a global, runs its epilogue.
+   Predicts whether the value B's global reaches through the closure accepts a mutation. *)
+Definition nested_heap : heap :=
+  [OFunc false [] [VRef 1] 0; OCell (Some (VRef 2)); OList false 0 [VAtom 1]; OList false 0 [VAtom 2]].
+
+Definition nested_predict (rebind keep : bool) : option bool :=
+  match freeze_globals 8 nested_heap [VRef 0] with
+  | None => None
+  | Some h1 =>
+      let h2 := if rebind then run_steps h1 [SCellSet 1 (VRef 3)] else h1 in
+      match (if keep then freeze_globals 8 h2 [VRef 0] else Some h2) with
+      | None => None
+      | Some h3 =>
+          match lookup h3 1 with
+          | Some (OCell (Some (VRef x))) =>
+              match mutate h3 x (GoLAppend (VAtom 3)) with Ok _ => Some true | _ => Some false end
+          | _ => None
+          end
+      end
+  end.
+
+Definition nested_ok (c : bool * bool * bool) : bool :=
+  match c with (rebind, keep, mutable) =>
+    match nested_predict rebind keep with Some b => Bool.eqb b mutable | None => false end
+  end.
